@@ -270,6 +270,12 @@ void profile_resolve(Gen &g) {
 			for (int t = 0; t < kk; t++) { Op e = g.mk(0, "edit"); g.seti(e, "o", oi); g.set(e, "what", rows_in ? "delcol" : "delrow"); g.seti(e, "i", r.below(30)); g.seti(e, "j", r.below(30)); p.ops.push_back(e); }
 		}
 		if (r.chance(1, 8)) { Op o = g.gen_param(0); g.seti(o, "o", oi); p.ops.push_back(o); }
+		// rows (columns) go in while a factorization is live, the exact driver settles the problem without the rational simplex, and then
+		// somebody asks the rational simplex for a pivot: whatever it kept from before the additions is of the wrong size
+		if (r.chance(1, 10)) { int kk = r.range(1, 2); for (int t = 0; t < kk; t++) { Op e; for (int q = 0; q < 60; q++) { e = g.gen_edit(0); std::string w = e.s("what"); if (w == "addrow" || w == "newrow" || w == "addcol" || w == "addrows") break; } g.seti(e, "o", oi); p.ops.push_back(e); }
+			Op s = g.gen_solve(0, "exact"); g.seti(s, "o", oi); s.a.erase("warm"); p.ops.push_back(s);
+			Op pv = g.mk(0, "pivotin"); g.seti(pv, "o", oi); g.set(pv, "what", r.chance(1, 2) ? "row" : "col"); g.seti(pv, "a", r.below(50)); g.seti(pv, "cnt", r.range(1, 2)); p.ops.push_back(pv);
+			if (g.ok("tableau")) { Op t = g.mk(0, "tableau"); g.seti(t, "o", oi); p.ops.push_back(t); } }
 		// the application keeps its own basis (column generation, cutting planes): a basis of the present dimensions is made and loaded, so
 		// the next solve takes the "basis passed in, pricing information kept" path with whatever the edits left of the norms
 		if (r.chance(1, 4)) { Op mkb = g.mk(0, "basis"); g.seti(mkb, "o", oi); g.set(mkb, "what", "make"); g.seti(mkb, "pat", r.chance(1, 3) ? -1 : (long)r.below(100000)); p.ops.push_back(mkb);
@@ -412,7 +418,11 @@ void profile_io(Gen &g, bool damage_heavy) {
 		else if (d < 7) { Fault f; f.kind = "io.chunk"; f.a["n"] = std::to_string(r.range(1, 64)); o.faults.push_back(f); }
 	};
 	for (int k = 0; k < rounds; k++) {
-		int ne = r.range(0, 4); for (int e = 0; e < ne; e++) p.ops.push_back(g.gen_edit(0));
+		int ne = g.longrun ? r.range(4, 12) : r.range(0, 4);
+		for (int e = 0; e < ne; e++) { Op ed = g.gen_edit(0);
+			// the long arm: histories in which names come and go (the files are written and read by name, the name tables are edited in place)
+			if (g.longrun && r.chance(1, 2)) { static const char *w[] = {"delcol", "delnamedcol", "delcols", "delnamedcols", "delrow", "delnamedrow", "newcol", "addcol", "addcols", "newrow", "addrow"}; for (int t = 0; t < 40; t++) { ed = g.gen_edit(0); bool hit = false; for (auto *k : w) if (ed.s("what") == k) hit = true; if (hit) break; } }
+			p.ops.push_back(ed); }
 		if (r.chance(1, 3)) { Op s = g.gen_solve(0, ""); if (g.faults && r.chance(1, 3)) g.add_interruption(s); p.ops.push_back(s); }
 		int d = (int)r.below(10);
 		if (damage_heavy) d = r.chance(11, 20) ? 0 : r.chance(4, 9) ? 6 : 8;   // reader profile: 55% library-written problem files, 20% basis files, 25% foreign problem files - all of them damaged
